@@ -358,7 +358,7 @@ def impl_cached(c):
             elif name == "del":
                 gen = cache.delete(K(o[2]))
             elif name == "flush":
-                order = [unk(k) for k in list(cache._dirty_keys)]
+                order = [unk(k) for k in sorted(cache._dirty_keys)]     # flush() iterates sorted(dirty keys)
                 gen = cache.flush()
             elif name == "inv":
                 cache.invalidate(K(o[2]))
